@@ -1,12 +1,7 @@
 package s0389
 
-type G3 struct {
-	F1x0x0x0 int64
-	F1x0x0x1 *uint32
-}
-
 type G2 struct {
-	F1x0x0 []G3
+	F1x0x0 []int64
 }
 
 type G1 struct {
@@ -14,6 +9,6 @@ type G1 struct {
 }
 
 type T struct {
-	F0 int32
-	F1 []G1
+	F0 *int32
+	F1 G1
 }
